@@ -3,6 +3,7 @@ package main
 
 import (
 	"fmt"
+	"math"
 	"time"
 	_ "time/tzdata"
 
@@ -416,6 +417,40 @@ func main() {
 					pDur.Do(w, durArg{a, k*int64(day) + dl})
 				}
 				w.Outcome("addduration grid")
+			})
+		})
+		// the ends of time.Duration's range: the largest shifts a duration can express, and pairs of dates exactly at, just
+		// inside and just outside the +-106751 days a duration can hold (Sub / DaysBetween are judged inside the range only)
+		r.Phase(fmt.Sprintf("extremes of time.Duration: %d dates x durations {MinInt64.., MaxInt64.., +-106751 days +- {0,1ns,12h,24h-1ns}, +-106750 days}; pairs exactly 106749..106753 days apart", len(S2)), "complete grid", func() {
+			const maxDays = 106751
+			var durs []int64
+			for _, b := range []int64{math.MinInt64, math.MaxInt64, maxDays * int64(day), -maxDays * int64(day), (maxDays - 1) * int64(day), -(maxDays - 1) * int64(day)} {
+				for _, dl := range []int64{0, 1, -1, int64(12 * time.Hour), -int64(12 * time.Hour), int64(day) - 1, -(int64(day) - 1), int64(time.Second)} {
+					v := b + dl
+					if (dl > 0 && v < b) || (dl < 0 && v > b) { // would wrap around int64
+						continue
+					}
+					durs = append(durs, v)
+				}
+			}
+			r.Parallel(int64(len(S2)), 1, func(w *mc.W, i int64) {
+				a := S2[i]
+				for _, du := range durs {
+					w.Point()
+					w.NonTrivial()
+					pDur.Do(w, durArg{a, du})
+				}
+				for k := int64(maxDays - 2); k <= maxDays+2; k++ {
+					for _, sgn := range []int64{1, -1} {
+						y, m, d := oracle.FromOrdinal(a.ord() + sgn*k)
+						b := ymd{y, m, d}
+						w.Point()
+						w.NonTrivial()
+						pPair.Do(w, pairArg{a, b})
+						pPair.Do(w, pairArg{b, a})
+					}
+				}
+				w.Outcome("duration extremes")
 			})
 		})
 		r.Sample("addduration", durArg{ymd{2024, 3, 1}, -1})
